@@ -20,7 +20,7 @@ def mutate(ext, old, new, count=1):
     return tree.body[0]
 
 
-def run_canary(cid, old, new):
+def run_canary(cid, old, new, only=None):
     """Returns ('refuted', [oids]) | ('accepted', []) | ('skipped', reason)"""
     c = REGISTRY[cid]
     u0 = Unit(c)
@@ -33,8 +33,12 @@ def run_canary(cid, old, new):
     except GenError as e:
         return "generror", str(e)
     bad = []
-    for ob in res.obligations:
-        discharge(ob, ob.detail)
+    from .vc import discharge_all
+    obs = [o for o in res.obligations if only is None or any(x in o.oid for x in only)]
+    if only is not None and not obs:
+        return "skipped", "no obligation matches %r" % (only,)
+    discharge_all(obs)
+    for ob in obs:
         if ob.status != "discharged":
             bad.append((ob.oid, ob.status))
     return ("refuted" if any(s == "refuted" for _, s in bad) else ("undecided" if bad else "accepted")), bad
